@@ -27,9 +27,7 @@ def fmt(text, o):
                          ellipses=o["ellipses"], list_spacing=o["list_spacing"])
 
 
-def parse(text):
-    from flowmark.formats.flowmark_markdown import flowmark_markdown
-    return flowmark_markdown().parse(text)
+from mdast import ParseTimeout, parse  # noqa: E402,F401  (parse under a watchdog)
 
 
 def run_fill_port(chk: Check, cases: list[dict], name="fill_markdown (Marko parse supplied)") -> None:
@@ -47,11 +45,18 @@ def run_fill_port(chk: Check, cases: list[dict], name="fill_markdown (Marko pars
         except astenc.UnknownNode as e:
             chk.broken.append(f"AST encoder: unknown Marko node type {e}")
             dtoks = "0"
+        except ParseTimeout as e:
+            c["_parse_timeout"] = True
+            chk.fail("property", {"doc": c["doc"], "opts": c["opts"], "family": "parser-hang"}, f"time: {e} (input handed to the parser: {ptxt[:200]!r})", None)
+            dtoks = "0"
         reqs.append("fill_markdown %s %s %s" % (astenc.enc_mdopts(o["width"], o["semantic"], o["cleanups"], o["smartquotes"], o["ellipses"], o["list_spacing"]),
                                              enc_str(c["doc"]), dtoks))
     outs = model_batch(reqs, shards=8)
     nd = 0
     for c, a in zip(cases, outs):
+        if c.get("_parse_timeout"):
+            c["out"] = "EXC ParseTimeout"
+            continue
         try:
             impl = fmt(c["doc"], c["opts"])
         except Exception as e:
